@@ -24,6 +24,15 @@ CHECKS = {
         note="Trusted: CPython, renderer, reference. Single-inheritance chains only (DAGs: C04). StopIteration bodies excluded.",
         technique="explicit exhaustive enumeration on the real code, reference-interpreter oracle on event logs and object identity",
         design="3/C02"),
+    "C05": dict(
+        text="Exhaustive enumeration of signature shapes (<=2 positional-only, <=2 positional-or-keyword, *args, <=2 keyword-only, "
+             "**kwargs, every legal default placement, +-self) x every call shape that inspect.Signature.bind accepts within the "
+             "bounds; every condition, capture, postcondition and error factory must receive, for each named parameter, the very "
+             "object CPython binds (and the body receives), _ARGS/_KWARGS the call's own positionals/keywords; a condition asking "
+             "for a name the call does not provide must yield a TypeError naming it.",
+        note="Trusted: CPython's inspect.Signature.bind as the oracle, the instrumented body as cross-check. Variadic parameter names not judged.",
+        technique="explicit exhaustive enumeration of signatures x accepted call shapes on the real code, CPython binding as oracle",
+        design="3/C05"),
     "C08": dict(
         text="Exhaustive exploration of family F with 0-2 own/inherited snapshots (captures copy or alias; OLD read by conditions "
              "or only by error factories) x precondition truth assignments x each postcondition falsy x mutating / rebinding / "
